@@ -35,10 +35,22 @@ use std::panic::{self, AssertUnwindSafe};
 
 pub type AFont<'a> = Font<DynamicFontTableProvider<'a>>;
 
+thread_local! {
+    /// Image-table filter every `Font` of the running case is configured with right after loading
+    /// (0 = the library default). `set_embedded_image_filter` is configuration, not a query: it is
+    /// applied identically to the long-lived font and to every fresh font.
+    static IMAGE_FILTER: std::cell::Cell<u8> = std::cell::Cell::new(0);
+}
+
 pub fn load_font(bytes: &[u8]) -> Option<AFont<'_>> {
     let fd = ReadScope::new(bytes).read::<FontData<'_>>().ok()?;
     let p = fd.table_provider(0).ok()?;
-    Font::new(p).ok()
+    let mut f = Font::new(p).ok()?;
+    let bits = IMAGE_FILTER.with(|c| c.get());
+    if bits != 0 {
+        f.set_embedded_image_filter(allsorts::font::GlyphTableFlags::from_bits_truncate(bits));
+    }
+    Some(f)
 }
 
 // ---- operations ---------------------------------------------------------------------------------
@@ -686,6 +698,8 @@ struct Pools {
     chars: Vec<char>,
     gids: Vec<u16>,
     image_heavy: bool,
+    ppems: Vec<u16>,
+    depths: Vec<u8>,
     /// many-keys histories: nearly all operations are shape calls
     shape_heavy: bool,
 }
@@ -702,9 +716,10 @@ fn gen_op(p: &Pools, rng: &mut Rng) -> Op {
         return Op::Shape(shape_args(rng));
     }
     let r = rng.below(100);
-    let img = if p.image_heavy { 25 } else { 4 };
+    // generated image fonts (five bit depths in the pool): mostly image lookups
+    let img = if p.depths.len() > 3 { 60 } else if p.image_heavy { 25 } else { 4 };
     if r < img {
-        return Op::Image { gid: *rng.pick(&p.gids), ppem: *rng.pick(&[0u16, 16, 20, 128, 300, 1000]), depth: *rng.pick(&[1u8, 8, 32]) };
+        return Op::Image { gid: *rng.pick(&p.gids), ppem: *rng.pick(&p.ppems), depth: *rng.pick(&p.depths) };
     }
     match rng.below(100) {
         0..=34 => Op::Shape(shape_args(rng)),
@@ -744,9 +759,76 @@ enum FontClass {
     /// a seed font with one optional table truncated / overwritten, so that lazy loaders fail
     Faulted,
     Generated,
+    /// a small TrueType host with freshly generated image tables (CBLC/CBDT, EBLC/EBDT, sbix, SVG):
+    /// several strikes over different glyph sets, so that which strike serves a glyph depends on the
+    /// glyph, the size and the bit depth asked for
+    GenImages,
 }
 
 impl C03 {
+    /// Host font + generated image tables, the pools to draw operations from, and the image filter.
+    fn gen_image_font(&self, cx: &mut Ctx, rng: &mut Rng) -> Option<(Vec<u8>, String, Pools, u8)> {
+        use crate::gen::bitmap_c01 as bm;
+        use allsorts::font::GlyphTableFlags as F;
+        let small: Vec<&RealFont> = self.fonts.iter().filter(|f| f.data.len() < 40_000 && f.data.starts_with(&[0, 1, 0, 0]) && !f.has_images && f.num_glyphs >= 4).collect();
+        if small.is_empty() {
+            return None;
+        }
+        let f = *rng.pick(&small);
+        let host = crate::sfnt::Font::parse(&f.data)?;
+        let n = f.num_glyphs.min(40);
+        let mut ppems: Vec<u16> = vec![0, 1, 300, 0xFFFF];
+        let mut gids: Vec<u16> = vec![0, 1, n - 1, n, 0xFFFF];
+        let mut filter = 0u8;
+        let mut tables: Vec<(&str, Vec<u8>)> = Vec::new();
+        let what;
+        match rng.below(6) {
+            0..=2 => {
+                let color = rng.bool();
+                let t = bm::gen_bitmap_tables(rng, n, color);
+                for &p in &t.ppems {
+                    ppems.extend_from_slice(&[p as u16, (p as u16).saturating_sub(1), p as u16 + 1]);
+                }
+                gids.extend_from_slice(&t.glyphs);
+                if rng.chance(2, 3) {
+                    tables.push(("CBLC", t.loc));
+                    tables.push(("CBDT", t.dat));
+                    what = "cblc";
+                } else {
+                    tables.push(("EBLC", t.loc));
+                    tables.push(("EBDT", t.dat));
+                    filter = (F::EBDT | if rng.bool() { F::SBIX } else { F::empty() }).bits();
+                    what = "eblc";
+                }
+            }
+            3 | 4 => {
+                let (t, _) = bm::gen_sbix(rng, n);
+                tables.push(("sbix", t));
+                ppems.extend_from_slice(&[15, 16, 17, 31, 32, 33, 127, 128, 129]);
+                gids.extend(0..n);
+                what = "sbix";
+            }
+            _ => {
+                let (t, _) = bm::gen_svg(rng, n);
+                tables.push(("SVG ", t));
+                gids.extend(0..n);
+                what = "svg";
+            }
+        }
+        cx.class(&format!("gen-images:{}", what));
+        gids.sort_unstable();
+        gids.dedup();
+        ppems.sort_unstable();
+        ppems.dedup();
+        let bytes = bm::attach(&host, &tables);
+        let mut pools = self.real_pools(f, FontClass::Images, 0, rng);
+        pools.gids = gids;
+        pools.ppems = ppems;
+        pools.depths = vec![1, 2, 4, 8, 32];
+        pools.image_heavy = true;
+        Some((bytes, format!("{} + generated {}", f.name, what), pools, filter))
+    }
+
     fn real_pools(&self, f: &RealFont, class: FontClass, ntuples: usize, rng: &mut Rng) -> Pools {
         // scripts: the font's own (and their v1/v2 siblings), plus foreigners
         let mut cand: Vec<u32> = Vec::new();
@@ -830,7 +912,7 @@ impl C03 {
         if rng.chance(1, 3) {
             gids.push(n); // out of range
         }
-        Pools { scripts, langs, feats, tuples: ntuples, texts, chars, gids, image_heavy: class == FontClass::Images, shape_heavy: false }
+        Pools { scripts, langs, feats, tuples: ntuples, texts, chars, gids, image_heavy: class == FontClass::Images, ppems: vec![0, 16, 20, 128, 300, 1000], depths: vec![1, 8, 32], shape_heavy: false }
     }
 
     /// Up to three normalised tuples built from the font's own fvar (and avar).
@@ -1071,7 +1153,7 @@ fn gen_pools(g: &GenFont, ntuples: usize, rng: &mut Rng) -> Pools {
     let mut gids: Vec<u16> = (0..4).map(|_| rng.below(g.num_glyphs as usize) as u16).collect();
     gids.push(0);
     gids.push(g.num_glyphs);
-    Pools { scripts, langs, feats, tuples: ntuples, texts, chars, gids, image_heavy: false, shape_heavy: false }
+    Pools { scripts, langs, feats, tuples: ntuples, texts, chars, gids, image_heavy: false, ppems: vec![0, 16, 20, 128, 300, 1000], depths: vec![1, 8, 32], shape_heavy: false }
 }
 
 /// Short form of a rendered result for witnesses: glyph ids / kerning / placements of a run,
@@ -1105,6 +1187,7 @@ fn run_of(infos: &[Info]) -> Vec<(u16, i32)> {
 impl C03 {
     fn history_case(&mut self, cx: &mut Ctx, rng: &mut Rng, class: FontClass, many: bool) {
         self.model_mismatch_flag.set(false);
+        IMAGE_FILTER.with(|c| c.set(0));
         // --- the font, its tuples and pools
         let gen: Option<GenFont>;
         let mut real_fv = false;
@@ -1127,6 +1210,20 @@ impl C03 {
                 gen = Some(g);
                 let g = gen.as_ref().map(|g| g.bytes.as_slice()).unwrap_or(&[]);
                 (g, "generated".to_string(), owned, pools)
+            }
+            FontClass::GenImages => {
+                gen = None;
+                match self.gen_image_font(cx, rng) {
+                    Some((b, name, pools, filter)) => {
+                        faulted_bytes = b;
+                        IMAGE_FILTER.with(|c| c.set(filter));
+                        (faulted_bytes.as_slice(), name, Vec::new(), pools)
+                    }
+                    None => {
+                        cx.inconclusive("gen-images:no-host");
+                        return;
+                    }
+                }
             }
             FontClass::Faulted => {
                 gen = None;
@@ -1227,6 +1324,13 @@ impl C03 {
             let got = got.unwrap_or_else(|e| e);
             compared += 1;
             cx.class(&format!("compared:{}", op.kind()));
+            if class == FontClass::GenImages && matches!(op, Op::Image { .. }) && fresh.starts_with("Ok(Some(") {
+                cx.class("gen-images:image-returned");
+                // two different strikes / images returned within one history?
+                if history.iter().any(|h| matches!(h, Op::Image { .. }) && *h != op) {
+                    cx.class("gen-images:image-returned-after-other-image-lookup");
+                }
+            }
             let differs_from_earlier = history.iter().any(|h| *h != op);
             for (e, n) in hits_delta(&before, &after) {
                 cx.class_n(&format!("hit:{}", e), n);
@@ -1524,6 +1628,7 @@ impl Prop for C03 {
             "images" => self.history_case(cx, rng, FontClass::Images, false),
             "any" => self.history_case(cx, rng, FontClass::Any, false),
             "faulted" => self.history_case(cx, rng, FontClass::Faulted, false),
+            "genimages" => self.history_case(cx, rng, FontClass::GenImages, false),
             "many" => {
                 let c = *rng.pick(&[FontClass::Generated, FontClass::Generated, FontClass::Generated, FontClass::Shaping, FontClass::Variable]);
                 self.history_case(cx, rng, c, true)
@@ -1538,7 +1643,8 @@ impl Prop for C03 {
                     self.history_case(cx, rng, c, true)
                 }
                 72..=83 => self.history_case(cx, rng, FontClass::Variable, false),
-                84..=89 => self.history_case(cx, rng, FontClass::Images, false),
+                84..=86 => self.history_case(cx, rng, FontClass::Images, false),
+                87..=89 => self.history_case(cx, rng, FontClass::GenImages, false),
                 90..=94 => self.history_case(cx, rng, FontClass::Faulted, false),
                 _ => self.history_case(cx, rng, FontClass::Any, false),
             },
